@@ -222,7 +222,11 @@ func runC16(c *ctxT) {
 		c.count(fmt.Sprintf("rt/%s/badscheme=%v", shape(s), bad))
 		// arbitrary text: mutate the valid text, or random
 		cand := append([]byte{}, txt...)
-		switch r.Intn(5) {
+		switch r.Intn(6) {
+		case 5: // another spelling of the last base64 digit of a peer id (spare bits set)
+			if at := bytes.IndexByte(cand, '@'); at > 0 {
+				cand[at-1] = p2p.Base64Alphabet[r.Intn(64)]
+			}
 		case 0:
 			cand = r.Bytes(r.Intn(30))
 		case 1:
